@@ -40,7 +40,7 @@ FAMS = ['OO', 'OI', 'IO', 'LO', 'OL', 'UO', 'QO', 'OU', 'OQ']
 
 
 def must_see(tier):
-    m = {'ledger-checks': 20000, 'teardown-checks': 100,
+    m = {'ledger-checks': 20000, 'teardown-checks': 100, 'node-census': 100,
          'valgrind:evaluations': 500, 'cycle-collections': 300,
          'resolve-with-successor': 10,
          'c:dbops:ledger-checks': 300, 'c:dbops:sweep-inside-load': 100,
@@ -264,8 +264,21 @@ def run_shard(spec, rec):
                                                   'cyc', j), rec)
 
 
+def node_census(fam):
+    """Number of live node objects (Bucket / Set / BTree / TreeSet, and
+    their lazy sequences and iterators) of the family's C classes.  A
+    reference to a NODE that is dropped once too seldom - a bucket handed
+    out by a range search, a successor link - leaks everything below it;
+    the tracked keys and values only notice when they happen to sit there."""
+    gc.collect()
+    mod = sys.modules[fam.cls('BTree', 'c').__module__]
+    return sum(1 for o in gc.get_objects()
+               if type(o).__module__ == mod.__name__)
+
+
 def run_history(fam, kind, rng, rec, h):
     impl = 'c'
+    census0 = node_census(fam)
     is_mapping = kind in families.MAPPING_KINDS
     is_tree = kind in families.TREE_KINDS
     sizes = gen.NODE_SIZES[rng.randrange(len(gen.NODE_SIZES))] if is_tree \
@@ -760,5 +773,12 @@ def run_history(fam, kind, rng, rec, h):
                       imbalance=brief(bad[:8]),
                       history=brief(log[-30:], 600), **desc)
         return
-    if h == 0 and kind == 'BTree':
-        rec.sample(dict(desc, ops=brief(log[:20], 300)))
+    # ---- node census -------------------------------------------------------
+    log_tail = brief(log[-30:], 600)
+    del log
+    left = node_census(fam) - census0
+    rec.ev('node-census')
+    if left > 0:
+        rec.violation('node-objects-left-after-destruction', left=left,
+                      history=log_tail, **desc)
+        return
